@@ -71,9 +71,60 @@ def explorations(tier):
     return ex
 
 
+def check_retry_once():
+    """Sequential: with retry in {None,1,2,3, custom decorator} every needed call runs exactly once whatever it
+    returns (None, 0, False, '', (), an object) - a success is a success even when the value is falsy."""
+    import uberjob
+    from .. import common
+
+    viols = []
+    n = 0
+    values = [None, 0, False, "", (), [], 1, "x"]
+
+    def passthrough(f):
+        return f
+
+    for retry in (None, 1, 2, 3, passthrough):
+        for W, sc in ((1, "default"), (1, "random"), (3, "default")):
+            n += 1
+            counts = {}
+            plan = uberjob.Plan()
+
+            def mk(name, value):
+                def f(*a):
+                    counts[name] = counts.get(name, 0) + 1
+                    return value
+                f.__name__ = name
+                return f
+
+            a = plan.call(mk("a", 1))
+            steps = [plan.call(mk(f"v{i}", v), a) for i, v in enumerate(values)]
+            side = plan.call(mk("side", None))
+            last = plan.call(mk("last", None), *steps)
+            plan.add_dependency(side, last)
+            unneeded = plan.call(mk("unneeded", None), last)  # noqa: F841
+            try:
+                uberjob.run(plan, output=last, retry=retry, max_workers=W, scheduler=sc, progress=None)
+            except Exception as e:  # noqa
+                viols.append(common.Violation(PROP, f"retry-once :: raised {type(e).__name__}", f"retry={retry!r}: run raised {e!r}", {"engine": "retry-once"}))
+                continue
+            expect = {"a": 1, "side": 1, "last": 1, **{f"v{i}": 1 for i in range(len(values))}}
+            if counts != expect:
+                bad = {k: v for k, v in counts.items() if expect.get(k) != v}
+                rname = getattr(retry, "__name__", retry)
+                viols.append(common.Violation(PROP, f"retry-once :: calls executed {sorted(bad)} times != 1",
+                                              f"retry={rname!r}, {W} worker(s), {sc}: execution counts {bad} (every needed call must run exactly once, unneeded never); returned values were {values}",
+                                              {"engine": "retry-once"}))
+    return viols, {"retry_once_cases": n}
+
+
 def run(tier):
-    return e1prop.run(PROP, explorations(tier))
+    v, cov = check_retry_once()
+    return e1prop.run(PROP, explorations(tier), extra_cov=cov, extra_viol=v)
 
 
 def replay(rep):
+    if rep.get("engine") == "retry-once":
+        v, _ = check_retry_once()
+        return [x.message for x in v]
     return e1prop.replay(PROP, rep)
